@@ -205,6 +205,12 @@ func (c *Collection) set(key string, exp Exp, opts *sgbucket.UpsertOptions, val 
 		if err != nil {
 			return nil, err
 		}
+		if opts != nil && opts.PreserveExpiry {
+			// the event must carry the expiry that was actually kept
+			if err = scan(txn.QueryRow("SELECT exp FROM documents WHERE collection=? AND key=?", c.id, key), &exp); err != nil {
+				return nil, remapKeyError(err, key)
+			}
+		}
 		return &event{
 			key:      key,
 			value:    val,
